@@ -13,7 +13,8 @@ EXTENDS Integers, Sequences, FiniteSets, TLC, HsProps
 
 CONSTANTS MaxIn,        \* bound on the number of server inputs
           CConfigs,     \* client configurations explored
-          FixRegress
+          FixRegress,
+          FixRcvErrRelease   \* the receiver goroutine releases the transport when it cannot receive any more
 
 VARIABLES ccfg,     \* [tk, esel]  transport kind, encryption selector
           pc,       \* where EstablishSession is blocked
@@ -185,8 +186,11 @@ CliAwaitEst(sym) ==
             /\ obs' = obs \o <<i>> \o StateEv(cState, TRUE, Wire)
             /\ UNCHANGED <<ccfg, pc, cState, cId, tenc, open, rtSeen>>
        [] sym.kind \in {"garbage", "junk", "eof"} ->   \* receiver dies, stream closed
-            /\ Done(<<i>>, "err", "", cState, open /\ sym.kind # "eof", cId, "", "")
-            /\ UNCHANGED <<ccfg, cState, cId, tenc, open, rtSeen>>
+            LET rel == FixRcvErrRelease /\ sym.kind # "eof"      \* (after an end of stream there is nothing to release)
+                stillOpen == open /\ sym.kind # "eof" /\ ~rel
+            IN /\ Done(<<i>> \o (IF rel /\ open THEN <<Ev("closed")>> ELSE <<>>), "err", "", cState, stillOpen, cId, "", "")
+               /\ open' = IF rel THEN FALSE ELSE open
+               /\ UNCHANGED <<ccfg, cState, cId, tenc, rtSeen>>
        [] OTHER ->
             IF Regress(sym) THEN (IF FixRegress THEN ErrRet(<<i>>) ELSE Panic(<<i>>))
             ELSE /\ cState' = sym.st /\ cId' = sym.id /\ open' = FoldOpen(sym)
